@@ -216,9 +216,11 @@ def main(argv=None):
     }
     if violation is not None:
         ev["coverage"]["violation"] = {"clause": violation["clause"], "detail": violation["detail"][:1000], "replay": replay_path}
+    # evidence is only ever written for the real tree; mutant runs (VERIF_REPO) keep theirs under .work
+    ev_dir = os.path.join(lib.VERIF_DIR, "evidence") if lib.REPO == "/repo" else os.path.join(lib.WORK, "evidence-mutant")
     if not harness_errors:
-        os.makedirs(os.path.join(lib.VERIF_DIR, "evidence"), exist_ok=True)
-        with open(os.path.join(lib.VERIF_DIR, "evidence", "%s.json" % pid), "w") as fh:
+        os.makedirs(ev_dir, exist_ok=True)
+        with open(os.path.join(ev_dir, "%s.json" % pid), "w") as fh:
             json.dump(ev, fh, indent=1, sort_keys=True, default=str)
             fh.write("\n")
 
